@@ -187,8 +187,27 @@ func (s *Seq) mangleScenario(r *simrt.Rand) []string {
 		}
 		path := dir + "/" + target
 		data, ok := fsys.RawRead(path)
-		kind := r.Intn(10)
+		kind := r.Intn(11)
 		switch {
+		case kind == 10:
+			// structure-aware damage of the index inside schema.json: the document stays
+			// well-formed JSON of the right shape, the index becomes inconsistent
+			raw, ok := fsys.RawRead(dir + "/schema.json")
+			if !ok {
+				continue
+			}
+			doc, err := parseSchemaDoc(raw)
+			if err != nil {
+				continue
+			}
+			desc := mutateIndex(r, doc)
+			if desc == "" {
+				continue
+			}
+			b, _ := json.Marshal(doc)
+			fsys.RawWrite(dir+"/schema.json", b)
+			muts = append(muts, "index-"+desc+" in schema.json")
+			s.stat("fault:index-mutate")
 		case kind == 9:
 			// the whole file becomes another JSON value
 			v := []string{"null", "[]", "{}", "\"\"", "0", "true", "[null]", "{\"index\":null}", "{\"fields\":null,\"index\":{\"fields\":null,\"object-ids\":null}}"}[r.Intn(9)]
@@ -371,4 +390,87 @@ func (s *Seq) mangleCalls(r *simrt.Rand, muts []string) {
 	})
 	call("Close-after-Drop", func() { db2.Close() })
 	s.stat("probe:damaged-db-survived")
+}
+
+// mutateIndex damages the serialised index in a shape-preserving way.
+func mutateIndex(r *simrt.Rand, doc schemaDoc) string {
+	fis := doc.fieldIndexes()
+	var names []string
+	for n := range fis {
+		names = append(names, n)
+	}
+	sort.Strings(names)
+	if len(names) == 0 {
+		return ""
+	}
+	name := names[r.Intn(len(names))]
+	fi, _ := fis[name].(map[string]interface{})
+	idx, _ := fi["index"].([]interface{})
+	tuple := func(i int) []interface{} { t, _ := idx[i].([]interface{}); return t }
+	switch r.Intn(8) {
+	case 0: // one entry takes the object id of another one (count and order intact)
+		if len(idx) < 2 {
+			return ""
+		}
+		i := r.Intn(len(idx))
+		j := (i + 1 + r.Intn(len(idx)-1)) % len(idx)
+		if tuple(i) == nil || tuple(j) == nil || len(tuple(i)) < 2 || len(tuple(j)) < 2 {
+			return ""
+		}
+		tuple(i)[1] = tuple(j)[1]
+		return "duplicate-id " + name
+	case 1: // an id that is in no object-ids
+		if len(idx) == 0 || tuple(0) == nil || len(tuple(0)) < 2 {
+			return ""
+		}
+		tuple(r.Intn(len(idx)))[1] = json.Number("987654")
+		return "unknown-id " + name
+	case 2: // two values exchanged: order broken
+		if len(idx) < 2 {
+			return ""
+		}
+		i, j := 0, len(idx)-1
+		if tuple(i) == nil || tuple(j) == nil || len(tuple(i)) < 1 || len(tuple(j)) < 1 {
+			return ""
+		}
+		tuple(i)[0], tuple(j)[0] = tuple(j)[0], tuple(i)[0]
+		return "swap-values " + name
+	case 3: // another cast
+		casts := []string{"int64", "uint64", "float64", "string", "bool", ""}
+		fi["cast"] = casts[r.Intn(len(casts))]
+		return "other-cast " + name
+	case 4: // the index of a field disappears
+		delete(fis, name)
+		return "drop-field-index " + name
+	case 5: // the index of a field the struct does not have
+		fis["NoSuchField"] = fis[name]
+		return "index-on-unknown-field"
+	case 6: // an object-ids entry renamed to a non-numeric / negative key
+		oids := doc.objectIds()
+		var ks []string
+		for k := range oids {
+			ks = append(ks, k)
+		}
+		sort.Strings(ks)
+		if len(ks) == 0 {
+			return ""
+		}
+		k := ks[r.Intn(len(ks))]
+		v := oids[k]
+		delete(oids, k)
+		oids[[]string{"-1", "x", "1.5", "18446744073709551616"}[r.Intn(4)]] = v
+		return "bad-object-id-key"
+	default: // two objects share one uuid
+		oids := doc.objectIds()
+		var ks []string
+		for k := range oids {
+			ks = append(ks, k)
+		}
+		sort.Strings(ks)
+		if len(ks) < 2 {
+			return ""
+		}
+		oids[ks[0]] = oids[ks[1]]
+		return "shared-uuid"
+	}
 }
